@@ -292,6 +292,17 @@ def shard_constructors(shard, nshards):
                 continue
             if raised is not None:
                 run.cls("rejected-illtyped" if expected is None else "over-rejected-welltyped")
+                if expected is None and must_reject:
+                    # a rejected application must stay rejected (no ill-typed node left behind in the table)
+                    try:
+                        r2 = build(mgr, args)
+                    except Exception:
+                        r2 = None
+                    if r2 is not None:
+                        run.fail({"subcheck": "constructor:accepted-illtyped-on-retry", "ctor": name},
+                                 {"ctor": name, "types": list(ts), "params": list(ps), "form": form},
+                                 "%s raised %s the first time and returned %s the second time" % (
+                                     label, type(raised).__name__, r2))
                 continue
             if expected is None:
                 if not must_reject:
